@@ -253,6 +253,11 @@ def _closed_shell_pair(case, rng, dt, nw, n_batch=1):
 
     norb, nocc = case["norb"], case["nocc"]
     h0, h1, chol = trials.rand_ham(rng, norb, 3, spin_dep=False, chol_scale=0.4)
+    if case["s"] % 2:
+        # a one-body matrix handed over with an antisymmetric part (same for both spins): every trial works with its symmetric part, so the
+        # problem is still the same closed-shell problem for both storage formats
+        anti = rng.normal(size=(norb, norb)) * 0.2
+        h1 = np.array([h1[0] + anti - anti.T, h1[1] + anti - anti.T])
     mo = np.linalg.qr(rng.normal(size=(norb, nocc)))[0]
     ene0 = float(rng.choice([0.0, -3.0, 2.5]))   # the free-projection reference energy must be irrelevant for phaseless runs of either format
     out = {}
